@@ -99,6 +99,11 @@ def routing_case(ctx, case, monitors):
         # the earlier episodes must leave nothing behind in it; the monitors below watch the LAST episode
         for rep_ in range(int(case.get("reuse_n", 1))):
             e_ = run_episode(env, td_in, list(reversed(names)), torch.Generator().manual_seed(seed + 1 + rep_), max_steps=case.get("max_steps", 6 * max(cfg["n"], case.get("inst_n") or 0) + 30), clone_input=False)
+            if "next" in td_in.keys():
+                # TorchRL-mode envs hang the trajectory ("next" -> "next" -> ...) onto the object they were given; an instance that
+                # is decoded again is handed over without that trajectory (otherwise its nesting grows by one episode per reuse
+                # until TensorDict.clone hits the recursion limit - an artefact of the workload, not of the env; DESIGN 35)
+                td_in.del_("next")
             if e_.error is not None or hasattr(e_, "dead_end_at"):
                 break
         ctx.count("reused_instance_objects")
@@ -380,6 +385,11 @@ def other_case(ctx, case, monitors):
         # (several earlier episodes on the same object: state that accumulates across episodes needs more than one to show)
         for rep_ in range(int(case.get("reuse_n", 1))):
             e_ = run_episode(env, td_in, list(reversed(names)), torch.Generator().manual_seed(seed + 1 + rep_), max_steps=case.get("max_steps", 2000), clone_input=False)
+            if "next" in td_in.keys():
+                # TorchRL-mode envs hang the trajectory ("next" -> "next" -> ...) onto the object they were given; an instance that
+                # is decoded again is handed over without that trajectory (otherwise its nesting grows by one episode per reuse
+                # until TensorDict.clone hits the recursion limit - an artefact of the workload, not of the env; DESIGN 35)
+                td_in.del_("next")
             if e_.error is not None or hasattr(e_, "dead_end_at"):
                 break
         ctx.count("reused_instance_objects")
